@@ -22,6 +22,16 @@ Types
   T5  `Vec<t>`, t an integer type or `bool`     a Lean `Array Int` / `Array Bool` (one component, whatever its length); struct fields and
                                         parameters of these types become parameters of that Lean type (consecutive parameters of one
                                         type share a binder)
+  T6  `[t; N]` (array), `[t]` (slice), t as in T5 or a type parameter (T7)      read exactly like `Vec<t>` (T5): one `Array` component.  The
+                                        length `N` is an invariant of the Rust type that is NOT stored: indexing is the checked V1 (an index
+                                        `≥ N` is `Panic.index` because the array a well-typed caller passes has `N` elements), and theorems about
+                                        the generated definitions carry `size = N` as a hypothesis where they need it.
+  T7  a type parameter `T` of the struct (`struct S<T, const D: usize>`, `impl<T: Clone, const D: usize> S<T, D>`)      an abstract Lean type: every
+                                        definition of the struct gets the implicit binder `{E0 … : Type}` (position among the type parameters),
+                                        a value of type `T` is one component of type `E<i>`, `Vec<T>` / `[T]` an `Array E<i>`.  Such values can
+                                        only be moved, stored (`vec![x; n]`, struct fields), indexed out of a vector and — with the bound
+                                        `T: PartialEq` (Lean: `[BEq E<i>]`) — compared as whole vectors (B4).  Bounds `Clone`, `Copy` need nothing;
+                                        any other bound makes the impl untranslatable (an error only if one of its functions is requested).
   T3  integer literals take their type from the context, by unification, default `i32` (two passes: the first only resolves
       literal types, the second emits); a literal that does not fit its type is an error.
 Items
@@ -29,6 +39,8 @@ Items
       function.  Receivers: `self`, `&self` → the struct value is a parameter; `&mut self` → additionally the function returns
       the new struct value: `Self'` if the Rust function returns `()`, `(Self' × R')` otherwise.
       `const NAME: Self = e;` inside an impl is inlined where `Self::NAME` is used.
+  I5  `type Output = T;` inside an impl is remembered: `Self::Output` in a signature of that impl — or of another trait impl of the same
+      struct that does not define it (`IndexMut` uses `Index::Output`) — is that type.  `impl Trait for &S<…>`: the `&` is dropped (R3).
       Other items (`use`, `#[derive/allow/inline]`, `type`, `trait` declarations, impls that are never called) are skipped; a
       `struct` outside T2 (lifetime / type parameters, fields of other types) is an error only if a translated function uses it;
       `#[cfg…]`, `mod`, free `static`/`const`, `unsafe`, `extern` are errors.
@@ -47,12 +59,17 @@ Expressions (integers; `t` = the static type of the operation, `T` its Lean term
                                         `(IntTy.wrap T (⟦e⟧ * 2 ^ ⟦k⟧.toNat))`
   M10 `e1.max(e2)`, `e1.min(e2)`         `(max ⟦e1⟧ ⟦e2⟧)`, `(min ⟦e1⟧ ⟦e2⟧)`
   M11 `<t>::MIN`, `<t>::MAX`, `t::MIN`…  `(IntTy.minVal T)`, `(IntTy.maxVal T)`
-  M12 `assert!(c)`                       [guard ¬ (⟦c⟧) ⇒ `Panic.assert`]
+  M12 `assert!(c)`                       [guard ¬ (⟦c⟧) ⇒ `Panic.assert`]; a message `assert!(c, "…", args)` is not translated (it is only
+                                        evaluated when the assertion has already failed)
+  M12' `assert_eq!(a, b)`                = `assert!(a == b)`: ⟦a⟧, then ⟦b⟧, [guard ¬ (⟦a⟧ = ⟦b⟧) ⇒ `Panic.assert`]   (a message is skipped as in M12)
   M13 `e1.rem_euclid(e2)`                guards as M5, term `(Int.emod ⟦e1⟧ ⟦e2⟧)`   (the non-negative remainder)
 Expressions (`bool`)
   B1  `true`, `false`                    `true`, `false`
   B2  a comparison / `!` / `&&` / `||` used as a value (returned, bound by `let`, stored)      `(decide (⟦c⟧))`
   B3  a `bool` value (variable, field, element, call) used as a condition                    `⟦e⟧ = true`
+  B4  `v1 == v2`, `!=` on `Vec`s / arrays / slices      integers, `bool`: `⟦v1⟧ = ⟦v2⟧` (a `Prop`; `decide` as a value, B2); elements of a type
+                                        parameter with `T: PartialEq`: `(⟦v1⟧ == ⟦v2⟧) = true` through `[BEq E<i>]` (std compares lengths, then
+                                        element-wise — `Array`'s `BEq`)
 Expressions and statements (`Vec`; the functions `SrcVec.*` are the fixed, hand-written file `Generated/VecPrelude.lean`, imported (P4)
 only by generated files that use one of these rules)
   V1  `e[i]`, `i: usize`                 [⟦e⟧, ⟦i⟧, bind x ← SrcVec.index ⟦e⟧ ⟦i⟧], term x       (out of range ⇒ `Panic.index`)
@@ -69,10 +86,20 @@ only by generated files that use one of these rules)
   V7  `p.resize(n, x);`                  `p` is rebound to `(SrcVec.resize ⟦p⟧ ⟦n⟧ ⟦x⟧)`
   V8  `p.push(x);`                       `p` is rebound to `(Array.push ⟦p⟧ ⟦x⟧)`
       any other method on a `Vec`, slices, ranges as indices, iterators: error
+Arrays, slices, iterator forms (the functions are the fixed, hand-written file `Generated/ArrPrelude.lean`, imported (P5) only by generated
+files that use A2 / A3)
+  A1  `[x; N]`                           `(SrcVec.replicate ⟦N⟧ ⟦x⟧)` as V3 (`x` first, then `N`); `[a, b, c]`: error
+  A2  `e.contains(&x)` (integers)        `(SrcVec.contains ⟦e⟧ ⟦x⟧)` : bool
+  A3  `e.iter().product::<t>()`, `e.iter().product()`      [bind v ← SrcVec.product T ⟦e⟧]: std's `fold(1, |a, b| a * b)` with every multiplication
+                                        checked (overflow ⇒ `Panic.overflow`), left to right; `t` must be the element type.  `.iter()` in any
+                                        other position: error
+  A4  `e.to_vec()`, `e.clone()` on a `Vec` / array / slice      ⟦e⟧ (a copy is the same value)
 Statements (besides S1–S9, S1' and S7' of rs2lean.py)
   S10 `for i in a..b { B }`, `for _ in a..b { B }`      `let mut #i = a; let #n = b; while #i < #n { let i = #i; B; #i = #i + 1 }` with S7; the step is
                                         not overflow-checked (`#i < #n ≤ MAX`); the bounds are evaluated once, in order; `..=`, `.rev()`,
                                         other iterators: error
+  S10' `for i in (a..b).rev() { B }`     `let #n = a; let mut #i = b; while #n < #i { #i = #i - 1; let i = #i; B }` (the step cannot underflow
+                                        because `#n < #i`); the bounds are evaluated once, `a` first
   S11 `break;` inside a `while` / `for` body (at any depth of `if`s, last statement of its block)      `.ok ⟨the loop's state⟩` — the loop's
                                         definition returns, the code after the loop goes on with that state; `continue`, `break` with
                                         statements after it, `break` outside a loop: error (`loop { if c { break; } … }` stays S7')
@@ -151,9 +178,48 @@ def is_struct(t):
     return isinstance(t, tuple) and t[0] == "struct"
 
 
+def is_tparam(t):
+    t = resolve(t)
+    return isinstance(t, tuple) and t[0] == "tparam"
+
+
+def is_option(t):
+    t = resolve(t)
+    return isinstance(t, tuple) and t[0] == "option"
+
+
 def is_scalar(t):
-    """one Lean component: an integer, a `bool` or a `Vec`"""
-    return is_int(t) or is_vec(t) or resolve(t) == BOOL
+    """one Lean component: an integer, a `bool`, a `Vec` / array / slice, a value of a type parameter (T7) or an `Option<int>` (T8)"""
+    return is_int(t) or is_vec(t) or resolve(t) == BOOL or is_tparam(t) or is_option(t)
+
+
+def is_lifetime(tok):
+    return tok.kind == "str" and tok.val.startswith("'") and not (len(tok.val) > 1 and tok.val.endswith("'"))
+
+
+def subst_vars(node, sub):
+    """S13: a copy of the AST below `node` in which every variable `x` with `x in sub` is replaced by `sub[x](line)`"""
+    if isinstance(node, Node):
+        if node.kind == "var" and node.name in sub:
+            return sub[node.name](node.line)
+        new = Node(node.kind, node.line)
+        for k, v in node.__dict__.items():
+            if k not in ("kind", "line"):
+                new.__dict__[k] = v if k == "impl" else subst_vars(v, sub)
+        return new
+    if isinstance(node, list):
+        return [subst_vars(x, sub) for x in node]
+    if isinstance(node, tuple):
+        return tuple(subst_vars(x, sub) for x in node)
+    return node
+
+
+BIT_METHODS = {"bitand": "&", "bitor": "|", "bitxor": "^"}
+BIT_ASSIGN_METHODS = {"bitand_assign": "&=", "bitor_assign": "|=", "bitxor_assign": "^="}
+
+
+# trait bounds a type parameter may carry (T7): `Clone`/`Copy` need nothing in Lean, `PartialEq`/`Eq` become `[BEq E<i>]`
+TP_BOUNDS_OK = {"Clone", "Copy", "PartialEq", "Eq"}
 
 
 # ------------------------------------------------------------------------------------------------
@@ -165,6 +231,8 @@ class TParser(Parser):
         super().__init__(src, file, allow_strings=True)   # other items of the file may contain strings; no rule accepts one
         self.structs = {}
         self.macro_params = set()      # `$t` names valid as types in the body being parsed
+        self.type_params = set()       # type parameters (T7) of the struct / impl being parsed
+        self.last_tparams, self.last_generic_order = [], []
 
     # -- items ------------------------------------------------------------------------------------
     def parse_program(self):
@@ -202,6 +270,8 @@ class TParser(Parser):
             elif self.at("macro_rules") and self.at("!", 1):
                 m = self.parse_macro_rules()
                 prog.macros[m.name] = m
+            elif t.kind == "ident" and self.at("!", 1) and t.val in prog.macros and getattr(prog.macros[t.val], "subst_body", None):
+                prog.impls += self.expand_ident_macro(prog.macros[t.val])                   # I6
             elif t.kind == "ident" and self.at("!", 1) and t.val in prog.macros:
                 prog.invocations.append(self.parse_invocation())
             else:
@@ -216,19 +286,33 @@ class TParser(Parser):
         name = self.ident("macro name").val
         self.expect("{")
         self.expect("(")
-        params = []
+        params, frags = [], []
         while not self.at(")"):
             self.expect("$")
-            p = self.ident("macro parameter").val
+            if self.peek().kind != "ident":
+                self.err("expected macro parameter")
+            p = self.next().val                              # may be a keyword (`$trait`)
             self.expect(":")
             frag = self.ident("fragment specifier")
-            if frag.val != "ty":
-                self.err(f"macro fragment `:{frag.val}` is outside the translated subset (only `:ty`)", frag)
+            if frag.val not in ("ty", "ident"):
+                self.err(f"macro fragment `:{frag.val}` is outside the translated subset (only `:ty`, `:ident`)", frag)
             params.append(p)
+            frags.append(frag.val)
             if not self.eat(","):
                 break
         self.expect(")")
         self.expect("=>")
+        if "ident" in frags:                                 # I6: expanded by token substitution at every item-level invocation
+            if set(frags) != {"ident"}:
+                self.err("a macro mixing `:ident` and `:ty` parameters is outside the translated subset", t)
+            start = self.i + 1
+            self.skip_braces()
+            end = self.i - 1
+            self.eat(";")
+            if not self.at("}"):
+                self.err("a macro with several rules is outside the translated subset")
+            self.expect("}")
+            return Node("macro", t.line, name=name, params=params, items=[], subst_body=(start, end))
         self.expect("{")
         old, self.macro_params = self.macro_params, set(params)
         items = []
@@ -251,6 +335,49 @@ class TParser(Parser):
         self.expect("}")
         self.macro_params = old
         return Node("macro", t.line, name=name, params=params, items=items)
+
+    def expand_ident_macro(self, m):
+        """I6: `name!(A, b);` for a macro with `:ident` parameters only: the body's tokens with `$p` replaced by the argument
+        identifier are appended to the token list and parsed as impl blocks (function bodies are parsed later, from there)."""
+        t = self.ident("macro name")
+        self.expect("!")
+        self.expect("(")
+        args = []
+        while not self.at(")"):
+            args.append(self.ident("macro argument (an identifier)"))
+            if not self.eat(","):
+                break
+        self.expect(")")
+        self.eat(";")
+        if len(args) != len(m.params):
+            self.err(f"`{m.name}!` takes {len(m.params)} arguments", t)
+        sub = dict(zip(m.params, args))
+        body, out, k = self.toks[m.subst_body[0]:m.subst_body[1]], [], 0
+        while k < len(body):
+            x = body[k]
+            if x.kind == "punct" and x.val == "$":
+                if k + 1 >= len(body) or body[k + 1].val not in sub:
+                    self.err("`$` that is not a parameter of the macro", x)
+                a = sub[body[k + 1].val]
+                out.append(type(a)(a.kind, a.val, body[k + 1].line, body[k + 1].pos))
+                k += 2
+            else:
+                out.append(x)
+                k += 1
+        eof = self.toks[-1]
+        back = self.i
+        self.i = len(self.toks)
+        self.toks += out + [type(eof)("eof", "", eof.line, eof.pos)]
+        impls = []
+        while self.peek().kind != "eof":
+            if self.at("#"):
+                self.parse_attr()
+            elif self.at("impl"):
+                impls.append(self.parse_impl())
+            else:
+                self.err(f"macro body item starting with `{self.peek().val}` is outside the translated subset (impl blocks)")
+        self.i = back
+        return impls
 
     def parse_invocation(self):
         t = self.ident("macro name")
@@ -282,19 +409,45 @@ class TParser(Parser):
         return name, [x.val for x in self.toks[start:self.i - 1]]
 
     def parse_const_generics(self):
-        """`<const A: u64, const C: u64>` -> [(name, int type)]"""
+        """`<T: Clone, const A: u64, const C: u64>` -> [(name, int type)] for the const parameters; the type parameters (T7) are left in
+        `self.last_tparams` = [(name, [bounds])] and all names, in order, in `self.last_generic_order`."""
         out = []
+        self.last_tparams, self.last_generic_order = [], []
         if not self.eat("<"):
             return out
         while not self.at(">"):
-            if not self.eat("const"):
-                self.err("type / lifetime parameters are outside the translated subset (only const generics)")
-            n = self.ident("const parameter").val
-            self.expect(":")
-            ty = self.parse_type()
-            if ty[0] != "int":
-                self.err("const parameter that is not an integer")
-            out.append((n, ty))
+            if is_lifetime(self.peek()):                     # `'a`: lifetimes do not change what the code computes; dropped
+                self.next()
+                if not self.eat(","):
+                    break
+                continue
+            if self.eat("const"):
+                n = self.ident("const parameter").val
+                self.expect(":")
+                ty = self.parse_type()
+                if ty[0] != "int":
+                    self.err("const parameter that is not an integer")
+                out.append((n, ty))
+            else:
+                t = self.peek()
+                if t.kind != "ident" or t.val in KEYWORDS:
+                    self.err("lifetime parameters are outside the translated subset (const generics and type parameters only)")
+                n = self.next().val
+                bounds = []
+                if self.eat(":"):
+                    while True:
+                        b = self.ident("trait bound").val
+                        while self.eat("::"):
+                            b = self.ident("trait bound").val
+                        if self.at("<"):
+                            self.err("a trait bound with arguments is outside the translated subset")
+                        if b not in TP_BOUNDS_OK:
+                            self.err(f"bound `{b}` on type parameter `{n}` is outside the translated subset (Clone, Copy, PartialEq, Eq)", t)
+                        bounds.append(b)
+                        if not self.eat("+"):
+                            break
+                self.last_tparams.append((n, bounds))
+            self.last_generic_order.append(n)
             if not self.eat(","):
                 break
         self.expect(">")
@@ -318,27 +471,33 @@ class TParser(Parser):
                 self.skip_braces()
             else:
                 self.next()
-            self.structs[name] = Node("struct", t.line, name=name, consts=[], fields=[], derives=[], error=e)
+            self.structs[name] = Node("struct", t.line, name=name, consts=[], fields=[], derives=[], error=e, tparams=[], generic_order=[])
 
     def parse_struct_body(self, t, name, attrs):
         consts = self.parse_const_generics()
+        tparams, order = self.last_tparams, self.last_generic_order
         if not self.at("{"):
             self.err("unit / tuple structs are outside the translated subset")
         self.next()
         fields = []
-        while not self.at("}"):
-            self.eat("pub")
-            f = self.ident("field name").val
-            self.expect(":")
-            ty = self.parse_type()
-            if ty[0] not in ("int", "bool", "vec"):
-                self.err(f"field `{f}` is not of a primitive integer type, `bool` or `Vec` of these")
-            fields.append((f, ty))
-            if not self.eat(","):
-                break
+        old_tp, self.type_params = self.type_params, {n for n, _ in tparams}
+        try:
+            while not self.at("}"):
+                self.eat("pub")
+                f = self.ident("field name").val
+                self.expect(":")
+                ty = self.parse_type()
+                if ty[0] not in ("int", "bool", "vec", "tparam"):
+                    self.err(f"field `{f}` is not of a primitive integer type, `bool` or `Vec` of these")
+                fields.append((f, ty))
+                if not self.eat(","):
+                    break
+        finally:
+            self.type_params = old_tp
         self.expect("}")
         derives = [x for n, toks in attrs if n == "derive" for x in toks if x not in ("(", ")", ",")]
-        self.structs[name] = Node("struct", t.line, name=name, consts=consts, fields=fields, derives=derives, error=None)
+        self.structs[name] = Node("struct", t.line, name=name, consts=consts, fields=fields, derives=derives, error=None,
+                                  tparams=tparams, generic_order=order)
 
     def parse_path_with_args(self):
         """`std::ops::Add`, `Modular<M>`, `Randomable<$t>`  -> (last segment, [argument token texts])"""
@@ -365,18 +524,26 @@ class TParser(Parser):
                     cur.append(x.val)
             if cur:
                 args.append("".join(cur))
-        return segs[-1], args
+        return segs[-1], [a for a in args if not a.startswith("'")]      # lifetime arguments are dropped
 
     def parse_impl(self):
         t = self.expect("impl")
-        imp = Node("impl", t.line, consts=[], trait=None, self_name=None, self_args=[], fns=[], consts_def={}, error=None)
+        imp = Node("impl", t.line, consts=[], trait=None, self_name=None, self_args=[], fns=[], consts_def={}, error=None,
+                   tparams=[], generic_order=[], assoc={})
         save = self.i
+        old_tp = self.type_params
         try:
             imp.consts = self.parse_const_generics()
+            imp.tparams, imp.generic_order = self.last_tparams, self.last_generic_order
+            self.type_params = {n for n, _ in imp.tparams}
+            if self.at("&"):                                 # `impl Trait for &S<…>`: the reference is dropped (R3)
+                self.next()
             a = self.parse_path_with_args()
             if self.eat("for"):
                 imp.trait = a[0]
                 imp.trait_args = a[1]
+                if self.at("&"):
+                    self.next()
                 a = self.parse_path_with_args()
             imp.self_name, imp.self_args = a
             if self.at("where"):
@@ -395,7 +562,18 @@ class TParser(Parser):
                 self.parse_attr()
                 continue
             self.eat("pub")
-            if self.at("type"):
+            if self.at("type"):                              # I5: `type Output = T;` is remembered, `Self::Output` resolves to it
+                self.next()
+                an = self.peek().val
+                self.next()
+                if self.eat("="):
+                    keep = self.i
+                    try:
+                        aty = self.parse_type()
+                        if self.at(";"):
+                            imp.assoc[an] = aty
+                    except TranslateError:
+                        self.i = keep
                 while not self.eat(";"):
                     self.next()
             elif self.at("const") and not self.at("fn", 1):
@@ -422,6 +600,7 @@ class TParser(Parser):
             else:
                 self.err(f"impl item starting with `{x.val}` is outside the translated subset")
         self.expect("}")
+        self.type_params = old_tp
         return imp
 
     def parse_method_header(self, imp):
@@ -472,6 +651,8 @@ class TParser(Parser):
         t = self.peek()
         if self.at("&"):
             self.next()
+            if is_lifetime(self.peek()):
+                self.next()
             self.eat("mut")
             return self.parse_type()
         if self.at("("):
@@ -484,17 +665,40 @@ class TParser(Parser):
             if n not in self.macro_params:
                 self.err(f"`${n}` is not a type parameter of the enclosing macro", t)
             return ("int", "$" + n)
+        if self.at("["):                                     # T6: `[t; N]` (array) and `[t]` (slice) are read like `Vec<t>`
+            self.next()
+            elem = self.parse_type()
+            if elem[0] not in ("int", "bool", "tparam"):
+                self.err("an array / slice of anything but primitive integers, `bool` or a type parameter is outside the translated subset", t)
+            if self.eat(";"):
+                n = self.next()
+                if n.kind not in ("ident", "int") or n.val in KEYWORDS:
+                    self.err("the length of an array type must be a const parameter or a literal", n)
+            self.expect("]")
+            return ("vec", elem)
         if self.eat("Self"):
+            if self.at("::"):                                # I5: `Self::Output`
+                self.next()
+                return ("assoc", self.ident("associated type").val)
             return ("self",)
         n = self.ident("type")
         if n.val in INT_TYPES:
             return ("int", n.val)
         if n.val == "bool":
             return BOOL
+        if n.val in self.type_params:                        # T7
+            return ("tparam", n.val)
+        if n.val == "Option":                                # T8
+            self.expect("<")
+            elem = self.parse_type()
+            if elem[0] not in ("int", "assoc"):
+                self.err("`Option` of anything but a primitive integer is outside the translated subset", n)
+            self.expect(">")
+            return ("option", elem)
         if n.val == "Vec":                                   # T5
             self.expect("<")
             elem = self.parse_type()
-            if elem[0] not in ("int", "bool"):
+            if elem[0] not in ("int", "bool", "tparam"):
                 self.err("`Vec` of anything but primitive integers / `bool` is outside the translated subset", n)
             self.expect(">")
             return ("vec", elem)
@@ -637,10 +841,16 @@ class TParser(Parser):
                 if self.peek().kind == "int":
                     self.err("tuple field access is outside the translated subset")
                 m = self.ident("field or method name")
+                tf = None
                 if self.at("::"):
-                    self.err("turbofish is outside the translated subset")
+                    if m.val not in ("product", "sum"):
+                        self.err("turbofish is outside the translated subset")
+                    self.next()                              # A3: `.product::<usize>()`, `.sum::<usize>()`
+                    self.expect("<")
+                    tf = self.parse_type()
+                    self.expect(">")
                 if self.at("("):
-                    e = Node("mcall", t.line, recv=e, name=m.val, args=self.parse_args())
+                    e = Node("mcall", t.line, recv=e, name=m.val, args=self.parse_args(), turbofish=tf)
                 else:
                     e = Node("field", t.line, e=e, name=m.val)
             elif self.at("["):                               # V1
@@ -664,6 +874,19 @@ class TParser(Parser):
                 self.err("tuples are outside the translated subset", t)
             self.expect(")")
             return e
+        if self.at("|"):                                   # A5: a one-parameter closure `|x| e` (only as the argument of `.map`)
+            self.next()
+            cp = self.ident("closure parameter")
+            self.expect("|")
+            return Node("closure", t.line, param=cp.val, body=self.parse_expr())
+        if self.at("["):                                   # A1: `[x; N]`
+            self.next()
+            x = self.parse_expr()
+            if not self.eat(";"):
+                self.err("only the form `[x; N]` of an array expression is in the translated subset", t)
+            n = self.parse_expr()
+            self.expect("]")
+            return Node("vecrep", t.line, x=x, n=n)
         if t.kind == "int":
             self.next()
             m = re.fullmatch(r"(0x[0-9a-fA-F_]+|0b[01_]+|0o[0-7_]+|[0-9][0-9_]*)((?:[iu](?:8|16|32|64|128|size))?)", t.val)
@@ -693,7 +916,17 @@ class TParser(Parser):
         while self.at("::"):
             self.next()
             if self.at("<"):
-                self.err("turbofish is outside the translated subset")
+                if not (path[-1] == "Self" or path[-1] in self.structs):
+                    self.err("turbofish is outside the translated subset")
+                depth = 0                                    # `Bitset::<N>::new()`: the generic arguments of the struct are dropped
+                while True:
+                    x = self.next()
+                    if x.kind == "eof":
+                        self.err("unbalanced `<`", t)
+                    depth += (x.val == "<") - (x.val == ">") if x.kind == "punct" else 0
+                    if depth == 0:
+                        break
+                continue
             path.append(self.ident("path segment").val)
         if self.at("!") and (self.at("(", 1) or self.at("[", 1) or self.at("{", 1)):
             self.next()
@@ -705,11 +938,25 @@ class TParser(Parser):
                 n = self.parse_expr()
                 self.expect("]")
                 return Node("vecrep", t.line, x=x, n=n)
-            if len(path) != 1 or path[0] != "assert":
-                self.err(f"macro `{'::'.join(path)}!` is outside the translated subset (only `assert!`, `vec![x; n]`)", t)
-            args = self.parse_args()
-            if len(args) != 1:
-                self.err("`assert!` with a message is outside the translated subset", t)
+            if len(path) != 1 or path[0] not in ("assert", "assert_eq"):
+                self.err(f"macro `{'::'.join(path)}!` is outside the translated subset (only `assert!`, `assert_eq!`, `vec![x; n]`)", t)
+            if not self.at("("):
+                self.err(f"`{path[0]}!` must be written with parentheses", t)
+            self.next()
+            args = [self.parse_expr()]
+            if path[0] == "assert_eq":                                                      # M12': `assert_eq!(a, b)` = `assert!(a == b)`
+                self.expect(",")
+                args.append(self.parse_expr())
+            if self.eat(","):                    # a message and its format arguments: evaluated only when the assertion has already failed
+                depth = 0
+                while not (self.at(")") and depth == 0):
+                    x = self.next()
+                    if x.kind == "eof":
+                        self.err("unbalanced `(`", t)
+                    depth += (x.val in ("(", "[", "{")) - (x.val in (")", "]", "}")) if x.kind == "punct" else 0
+            self.expect(")")
+            if path[0] == "assert_eq":
+                return Node("assert", t.line, cond=Node("cmp", t.line, op="==", l=args[0], r=args[1]))
             return Node("assert", t.line, cond=args[0])
         if self.at("("):
             args = self.parse_args()
@@ -839,6 +1086,24 @@ class FnEmitter:
             return sub.get(ty[1], ty)
         if ty[0] == "vec":
             return ("vec", self.norm_ty(ty[1]))
+        if ty[0] == "tparam":                                # T7: by position among the impl's type parameters
+            if isinstance(ty[1], int):
+                return ty
+            names = [n for n, _ in getattr(self.imp, "tparams", [])]
+            if ty[1] not in names:
+                self.err(self.fn.line, f"`{ty[1]}` is not a type parameter of this impl")
+            return ("tparam", names.index(ty[1]))
+        if ty[0] == "option":                                # T8
+            return ("option", self.norm_ty(ty[1]))
+        if ty[0] == "assoc":                                 # I5
+            a = getattr(self.imp, "assoc", {})
+            if ty[1] in a:
+                return self.norm_ty(a[ty[1]])
+            # `IndexMut::Output` is the supertrait's (`Index`): the one `type <name> = …` among the other impls of this struct
+            cands = [i for i in self.tr.impls_of(self.imp.self_name) if ty[1] in getattr(i, "assoc", {})]
+            if len(cands) != 1:
+                self.err(self.fn.line, f"`Self::{ty[1]}` is not defined by a translatable `type` item of this impl")
+            return FnEmitter(self.tr, Node("fn", self.fn.line, name="type", impl=cands[0]), None, self.lit).norm_ty(cands[0].assoc[ty[1]])
         if ty[0] == "struct":
             if ty[1] in STD_RANGES:
                 if ty[1] == "RangeFull":
@@ -886,6 +1151,8 @@ class FnEmitter:
         t = resolve(t)
         if not isinstance(t, TVar) and t[0] == "vec":
             return f"Vec<{FnEmitter.show_ty(t[1])}>"
+        if not isinstance(t, TVar) and t[0] == "tparam":
+            return f"type parameter #{t[1]}"
         return "{integer}" if isinstance(t, TVar) else t[1] if len(t) > 1 else t[0]
 
     def fields_of(self, ty, line):
@@ -895,7 +1162,17 @@ class FnEmitter:
         if ty[1] in STD_RANGES:
             return [(f, ty[2]) for f in STD_RANGES[ty[1]]]
         s = self.tr.struct(ty[1], line)
-        return s.fields
+        if not getattr(s, "tparams", None):
+            return s.fields
+        names = [n for n, _ in s.tparams]                    # T7: field types in terms of the struct's own parameter positions
+
+        def pos(t):
+            if t[0] == "tparam" and not isinstance(t[1], int):
+                return ("tparam", names.index(t[1]))
+            if t[0] == "vec":
+                return ("vec", pos(t[1]))
+            return t
+        return [(f, pos(t)) for f, t in s.fields]
 
     def comps(self, ty, line):
         """the Lean types of the components a value of `ty` is made of (T1, T2, T4, T5)"""
@@ -904,9 +1181,25 @@ class FnEmitter:
             return ["Int"]
         if ty == BOOL:
             return ["Bool"]
+        if ty[0] == "tparam":
+            return [f"E{ty[1]}"]
+        if ty[0] == "option":
+            return ["Option Int"]
         if ty[0] == "vec":
-            return ["Array Bool" if resolve(ty[1]) == BOOL else "Array Int"]
+            el = resolve(ty[1])
+            return ["Array Bool" if el == BOOL else f"Array E{el[1]}" if is_tparam(el) else "Array Int"]
         return [c for _, f in self.fields_of(ty, line) for c in self.comps(f, line)]
+
+    def ty_binders(self):
+        """T7: the implicit binders `{E0 … : Type} [BEq E0]` of every definition of a struct with type parameters ("" otherwise)"""
+        tps = getattr(self.imp, "tparams", [])
+        if not tps:
+            return ""
+        out = " {" + " ".join(f"E{i}" for i in range(len(tps))) + " : Type}"
+        for i, (_, bounds) in enumerate(tps):
+            if "PartialEq" in bounds or "Eq" in bounds:
+                out += f" [BEq E{i}]"
+        return out
 
     def lean_ret(self, ty):
         ty = resolve(ty)
@@ -918,6 +1211,8 @@ class FnEmitter:
         """`got` must be the type `want` (integer literals and element types are unified)"""
         if is_int(got) and is_int(want) or is_vec(got) and is_vec(want):
             return self.unify(got, want, line)
+        if is_option(got) and is_option(want):
+            return ("option", self.unify(resolve(got)[1], resolve(want)[1], line))
         if resolve(got) != resolve(want):
             self.err(line, what)
         return resolve(want)
@@ -929,6 +1224,18 @@ class FnEmitter:
         if want is not None and (is_int(ty) and is_int(want) or is_vec(ty) and is_vec(want)):
             ty = self.unify(ty, want, e.line)
         return pre, val, ty
+
+    def is_int_expr(self, e, env, ctx, st):
+        """dry run (on copies): is `e` an integer-valued expression?  Used to tell `!x` on integers (M14) from `!c` on conditions."""
+        if e.kind in ("cmp", "and", "or", "boollit"):
+            return False
+        if e.kind == "not":
+            return self.is_int_expr(e.e, env, ctx, st)
+        try:
+            _, _, ty = self.expr(e, list(env), ctx, dict(st))
+        except TranslateError:
+            return False
+        return is_int(ty)
 
     def rebind(self, env, uid, val, st):
         """R4: a `&mut self` method call inside an expression gives its receiver variable a new value.  `env` is the private copy of the
@@ -966,6 +1273,9 @@ class FnEmitter:
         if k == "incr":                                   # S10: the step of a counted loop; `i < n` holds, so `i + 1` cannot overflow
             pre, v, ty = self.expr(e.e, env, ctx, st)
             return pre, f"({v} + 1)", ty
+        if k == "decr":                                   # S10': the step of a `.rev()` loop; `#n < #i` holds, so `#i - 1` cannot underflow
+            pre, v, ty = self.expr(e.e, env, ctx, st)
+            return pre, f"({v} - 1)", ty
         if k == "lit":                                                                     # M1
             tv = self.lit.setdefault(id(e), TVar())
             if e.suffix:
@@ -991,11 +1301,12 @@ class FnEmitter:
                 self.err(e.line, "an index that is not an integer (ranges / slices are outside the translated subset)")
             self.unify(t2, USIZE, e.line)
             x = self.fresh(st)
+            self.tr.uses_vec = True
             return p1 + p2 + [("bind", f"SrcVec.index {v1} {v2}", x)], x, resolve(t1)[1]
         if k == "vecrep":                                                                  # V3
             elem = resolve(want)[1] if want is not None and is_vec(want) else None
             p1, v1, t1 = self.expr(e.x, env, ctx, st, elem)
-            if not (is_int(t1) or resolve(t1) == BOOL):
+            if not (is_int(t1) or resolve(t1) == BOOL or is_tparam(t1)):
                 self.err(e.line, "`vec![x; n]` with an element that is neither an integer nor a `bool`")
             p2, v2, t2 = self.expr(e.n, env, ctx, st, USIZE)
             if not is_int(t2):
@@ -1003,9 +1314,23 @@ class FnEmitter:
             self.unify(t2, USIZE, e.line)
             self.tr.uses_vec = True
             return p1 + p2, f"(SrcVec.replicate {v2} {v1})", ("vec", t1)
+        if k == "not" and self.is_int_expr(e.e, env, ctx, st):                              # M14: `!e` on an integer
+            pre, v, ty = self.expr(e.e, env, ctx, st, want if want is not None and is_int(want) else None)
+            return pre, f"(IntTy.wrap {self.lean_ty(ty, e.line)} (-{v} - 1))", ty
         if k in ("cmp", "and", "or", "not"):                                               # B2
             pre, c = self.cond(e, env, ctx, st)
             return pre, f"(decide ({c}))", BOOL
+        if k == "var" and e.name == "None" and lookup(env, "None") is None:                 # T8
+            inner = resolve(want)[1] if want is not None and is_option(want) else self.lit.setdefault(id(e), TVar())
+            return [], "none", ("option", inner)
+        if k == "call" and e.path == ["Some"] and len(e.args) == 1:                         # T8
+            inner = resolve(want)[1] if want is not None and is_option(want) else None
+            pre, v, ty = self.expr(e.args[0], env, ctx, st, inner)
+            if not is_int(ty):
+                self.err(e.line, "`Some(e)` with a payload that is not an integer is outside the translated subset")
+            return pre, f"(some {v})", ("option", ty)
+        if k == "closure":
+            self.err(e.line, "a closure is only translated as the argument of `.iter().map(…).sum()`")
         if k == "var":
             v = lookup(env, e.name)
             if v is not None:
@@ -1042,7 +1367,7 @@ class FnEmitter:
             self.err(e.line, f"no field `{e.name}`")
         if k == "structlit":                                                               # R1
             sname = self.imp.self_name if e.name == "Self" else e.name
-            fs = self.tr.struct(sname, e.line).fields
+            fs = self.fields_of(("struct", sname), e.line)
             if sorted(n for n, _ in e.fields) != sorted(n for n, _ in fs):
                 self.err(e.line, "the struct literal must initialise exactly the fields of the struct")
             pre, got = [], {}
@@ -1153,6 +1478,36 @@ class FnEmitter:
         return pre, val, rty, new_self
 
     def method_call(self, e, env, ctx, st, want):
+        if getattr(e, "turbofish", None) is not None and e.name not in ("product", "sum"):
+            self.err(e.line, "turbofish is outside the translated subset")
+        if e.name == "product" and not e.args and e.recv.kind == "mcall" and e.recv.name == "iter" and not e.recv.args:   # A3
+            p1, v1, t1 = self.expr(e.recv.recv, env, ctx, st)
+            if not is_vec(t1) or not is_int(resolve(t1)[1]) or isinstance(resolve(resolve(t1)[1]), TVar):
+                self.err(e.line, "`.iter().product()` is only translated on a `Vec` / array / slice of a primitive integer type")
+            elem = resolve(resolve(t1)[1])
+            if getattr(e, "turbofish", None) is not None:
+                self.same(self.norm_ty(e.turbofish), elem, e.line, "`.product::<t>()` with a type that is not the element type")
+            x = self.fresh(st)
+            self.tr.uses_arr = True
+            return p1 + [("bind", f"SrcVec.product {self.lean_ty(elem, e.line)} {v1}", x)], x, elem
+        if (e.name == "sum" and not e.args and e.recv.kind == "mcall" and e.recv.name == "map" and len(e.recv.args) == 1 and
+                e.recv.args[0].kind == "closure" and e.recv.recv.kind == "mcall" and e.recv.recv.name == "iter" and not e.recv.recv.args):   # A5
+            cl = e.recv.args[0]
+            p1, v1, t1 = self.expr(e.recv.recv.recv, env, ctx, st)
+            if not is_vec(t1) or not is_int(resolve(t1)[1]):
+                self.err(e.line, "`.iter().map(…).sum()` is only translated on a `Vec` / array / slice of integers")
+            x = self.fresh(st)
+            pb, vb, tb = self.expr(cl.body, env + [Var(self.new_uid(), cl.param, x, False, resolve(t1)[1])], ctx, st,
+                                   self.norm_ty(e.turbofish) if getattr(e, "turbofish", None) is not None else None)
+            if pb:
+                self.err(cl.line, "a closure body that can panic or calls a function is outside the translated subset")
+            if not is_int(tb) or isinstance(resolve(tb), TVar):
+                self.err(cl.line, "the closure of `.map(…).sum()` must return a primitive integer")
+            if getattr(e, "turbofish", None) is not None:
+                self.same(self.norm_ty(e.turbofish), tb, e.line, "`.sum::<t>()` with a type that is not the closure's result type")
+            r = self.fresh(st)
+            self.tr.uses_arr = True
+            return p1 + [("bind", f"SrcVec.sum {self.lean_ty(tb, e.line)} (Array.map (fun {x} => {vb}) {v1})", r)], r, resolve(tb)
         if e.recv.kind == "range" and e.name == "collect" and not e.args:                  # V4: `(a..b).collect()`
             r = e.recv
             if want is None or not is_vec(want) or r.inclusive:
@@ -1194,12 +1549,31 @@ class FnEmitter:
                     return p1 + p2, f"({e.name} {v1} {v2})", ty
                 op = {"wrapping_add": "+", "wrapping_sub": "-", "wrapping_mul": "*"}[e.name]   # M7
                 return p1 + p2, f"(IntTy.wrap {self.lean_ty(ty, e.line)} ({v1} {op} {v2}))", ty
+            if e.name in BIT_METHODS and len(e.args) == 1:                                 # M8': `x.bitand(y)` = `x & y`
+                pre, v, ty = self.expr(Node("bit", e.line, op=BIT_METHODS[e.name], l=Node("rawval", e.line, val=v1, ty=t1), r=e.args[0]),
+                                       env, ctx, st, want)
+                return p1 + pre, v, ty
+            if e.name in ("count_ones", "trailing_zeros") and not e.args:                  # M15, M16 (trusted primitives of ArrPrelude)
+                if isinstance(resolve(t1), TVar):
+                    self.err(e.line, f"`.{e.name}()` on an integer literal of unknown type")
+                self.tr.uses_arr = True
+                f = "SrcInt.countOnes" if e.name == "count_ones" else "SrcInt.trailingZeros"
+                return p1, f"({f} {self.lean_ty(t1, e.line)} {v1})", ("int", "u32")
             self.err(e.line, f"method `.{e.name}()` on an integer is outside the translated subset")
         t1r = resolve(t1)
         if is_vec(t1r):
             if e.name == "len" and not e.args:                                             # V2
                 self.tr.uses_vec = True
                 return p1, f"(SrcVec.len {v1})", USIZE
+            if e.name == "contains" and len(e.args) == 1 and is_int(t1r[1]):               # A2
+                p2, v2, t2 = self.expr(e.args[0], env, ctx, st, t1r[1])
+                if not is_int(t2):
+                    self.err(e.line, "`.contains(&x)`: `x` is not an integer")
+                self.unify(t1r[1], t2, e.line)
+                self.tr.uses_arr = True
+                return p1 + p2, f"(SrcVec.contains {v1} {v2})", BOOL
+            if e.name in ("to_vec", "clone") and not e.args:                               # A4: a copy is the same value
+                return p1, v1, t1r
             self.err(e.line, f"method `.{e.name}()` on a `Vec` is outside the translated subset here (`.len()`; `.resize(n, x)` and "
                              "`.push(x)` as statements)")
         if isinstance(t1r, TVar) or t1r[0] != "struct":
@@ -1257,6 +1631,17 @@ class FnEmitter:
                 return p1 + p2, f"{v1} {op} {v2}"
             if resolve(t1) == BOOL and resolve(t2) == BOOL and e.op in ("==", "!="):
                 return p1 + p2, f"{v1} {op} {v2}"
+            if is_vec(t1) and is_vec(t2) and e.op in ("==", "!="):                          # B4: `Vec` / array equality
+                self.unify(t1, t2, e.line)
+                el = resolve(resolve(t1)[1])
+                if is_tparam(el):
+                    b = getattr(self.imp, "tparams", [])[el[1]][1]
+                    if "PartialEq" not in b and "Eq" not in b:
+                        self.err(e.line, "`==` on vectors of a type parameter without a `PartialEq` bound")
+                    c = f"({v1} == {v2}) = true"
+                else:
+                    c = f"{v1} = {v2}"
+                return p1 + p2, c if e.op == "==" else f"¬ ({c})"
             if not is_struct(t1) or resolve(t1) != resolve(t2) or e.op not in ("==", "!="):                      # R7
                 self.err(e.line, "comparison of values that are not integers")
             if "PartialEq" not in self.tr.struct(resolve(t1)[1], e.line).derives:
@@ -1382,7 +1767,14 @@ class FnEmitter:
             self.err(s.line, f"`{k}` here is outside the translated subset (`break` inside a `while` / `for` body; `if c {{ break; }}` at the "
                              "head or tail of a `loop`)")
         if k == "for":                                                                      # S10: counted loop
+            if s.iter.kind == "mcall" and self.iter_shape(s.iter) is not None:               # S13
+                if not hasattr(s, "desugared"):
+                    s.desugared = self.iter_for(s)
+                return self.stmts(s.desugared + rest, tail, line, env, ctx, st, after, ind)
             it = s.iter
+            rev = it.kind == "mcall" and it.name == "rev" and not it.args and it.recv.kind == "range"        # S10'
+            if rev:
+                it = it.recv
             if it.kind != "range" or it.inclusive or s.pat.kind not in ("pvar", "pwild"):
                 self.err(s.line, "only `for i in a..b` / `for _ in a..b` is in the translated subset")
             if not hasattr(s, "tag"):
@@ -1393,6 +1785,12 @@ class FnEmitter:
             inner = ([Node("let", s.line, pat=s.pat, mut=False, expr=ci, ann=None)] if s.pat.kind == "pvar" else []) + list(s.body.stmts)
             if s.body.tail is not None:
                 self.err(s.body.tail.line, "a `for` body that ends in a value is outside the translated subset")
+            if rev:     # `let #n = a; let mut #i = b; while #n < #i { #i = #i - 1; let i = #i; B }`
+                inner = [Node("expr", s.line, expr=Node("assign", s.line, op="=", target=ci, expr=Node("decr", s.line, e=ci)))] + inner
+                des = [Node("let", s.line, pat=Node("pvar", s.line, name=nn), mut=False, expr=it.lo, ann=None),
+                       Node("let", s.line, pat=Node("pvar", s.line, name=ni), mut=True, expr=it.hi, ann=None),
+                       Node("while", s.line, cond=Node("cmp", s.line, op="<", l=cn, r=ci), body=Node("block", s.line, stmts=inner, tail=None))]
+                return self.stmts(des + rest, tail, line, env, ctx, st, after, ind)
             inner.append(Node("expr", s.line, expr=Node("assign", s.line, op="=", target=ci, expr=Node("incr", s.line, e=ci))))
             des = [Node("let", s.line, pat=Node("pvar", s.line, name=ni), mut=True, expr=it.lo, ann=None),
                    Node("let", s.line, pat=Node("pvar", s.line, name=nn), mut=False, expr=it.hi, ann=None),
@@ -1412,7 +1810,10 @@ class FnEmitter:
             return self.wrap(pre, self.lets(names, v, ind) + go(env2), ind)
         if k == "expr" and s.expr.kind == "assign" and self.strip_refs(s.expr.target).kind == "index":
             return self.index_assign(s.expr, env, ctx, st, go, ind)
-        if k == "expr" and s.expr.kind == "mcall" and s.expr.name in ("resize", "push") and self.place_of(s.expr.recv) is not None:
+        if k == "expr" and s.expr.kind == "mcall" and s.expr.name in BIT_ASSIGN_METHODS and len(s.expr.args) == 1:   # M8': `x.bitand_assign(y);` = `x &= y;`
+            des = Node("expr", s.line, expr=Node("assign", s.line, op=BIT_ASSIGN_METHODS[s.expr.name], target=s.expr.recv, expr=s.expr.args[0]))
+            return self.stmts([des] + rest, tail, line, env, ctx, st, after, ind)
+        if k == "expr" and s.expr.kind == "mcall" and s.expr.name in ("resize", "push", "fill") and self.place_of(s.expr.recv) is not None:
             place = self.place_of(s.expr.recv)
             _, v0, t0 = self.expr(place, env, ctx, st)
             if is_vec(t0):
@@ -1427,9 +1828,9 @@ class FnEmitter:
                         pre, v, t2 = self.expr(a.expr, env, ctx, st, ty)
                         self.unify(ty, t2, a.line)
                     else:
-                        if a.op[0] not in "+-*/%":
+                        if a.op[0] not in "+-*/%|&^":
                             self.err(a.line, f"`{a.op}` is outside the translated subset")
-                        rhs = Node("bin", a.line, op=a.op[0], l=Node("rawval", a.line, val=old, ty=ty), r=a.expr)
+                        rhs = Node("bit" if a.op[0] in "|&^" else "bin", a.line, op=a.op[0], l=Node("rawval", a.line, val=old, ty=ty), r=a.expr)
                         pre, v, _ = self.expr(rhs, env, ctx, st, ty)
                     n = self.fresh(st)
                     box["pre"] = pre
@@ -1499,6 +1900,71 @@ class FnEmitter:
             return self.while_loop(s, env, ctx, st, go, ind)
         self.err(s.line, f"statement `{k}` has no translation rule")
 
+    # -- S13: `for P in I { B }` over slice iterators ---------------------------------------------------
+    def iter_shape(self, it):
+        """I ::= e.iter() | e.iter_mut() | I.zip(I') | I.enumerate()   ->  a tree, or None when `it` is not of that form"""
+        if it.kind != "mcall":
+            return None
+        if it.name in ("iter", "iter_mut") and not it.args:
+            return ("src", it.recv, it.name == "iter_mut")
+        if it.name == "zip" and len(it.args) == 1:
+            a, b = self.iter_shape(it.recv), self.iter_shape(it.args[0])
+            return ("zip", a, b) if a is not None and b is not None else None
+        if it.name == "enumerate" and not it.args:
+            a = self.iter_shape(it.recv)
+            return ("enum", a) if a is not None else None
+        return None
+
+    def iter_for(self, s):
+        """`for P in I { B }`  =  `let #m = LEN(I); for #k in 0..#m { <bindings of P at position #k>; B }` where LEN(e.iter()) = `e.len()`,
+        LEN(I.zip(I')) = `LEN(I).min(LEN(I'))`, LEN(I.enumerate()) = LEN(I); an element of `e.iter()` is bound by `let x = e[#k]`, the index
+        of `enumerate` by `let i = #k`, and an element `x` of `e.iter_mut()` is the PLACE `e[#k]`: every `x` in `B` is replaced by it
+        (`*x = v` is `e[#k] = v`, `x.bitand_assign(y)` is `e[#k] &= y`).  `e` must be a variable or a field of one."""
+        self.tr.for_count = getattr(self.tr, "for_count", 0) + 1
+        kname = f"#k{self.tr.for_count}"
+        kvar = lambda line: Node("var", line, name=kname)          # noqa: E731
+        lets, sub = [], {}
+
+        def length(sh):
+            if sh[0] == "src":
+                return Node("mcall", s.line, recv=sh[1], name="len", args=[], turbofish=None)
+            if sh[0] == "enum":
+                return length(sh[1])
+            return Node("mcall", s.line, recv=length(sh[1]), name="min", args=[length(sh[2])], turbofish=None)
+
+        def bind(sh, pat):
+            if sh[0] == "src":
+                if self.place_of(sh[1]) is None:
+                    self.err(s.line, "`.iter()` / `.iter_mut()` in a `for` must be applied to a variable or a field of one")
+                if pat.kind == "pwild":
+                    return
+                if pat.kind != "pvar":
+                    self.err(pat.line, "the pattern of a `for` over `.iter()` must be a variable (or tuples of variables for `zip` / `enumerate`)")
+                elem = lambda line, e=sh[1]: Node("index", line, e=e, idx=kvar(line))     # noqa: E731
+                if sh[2]:
+                    sub[pat.name] = elem
+                else:
+                    lets.append(Node("let", pat.line, pat=pat, mut=False, expr=elem(pat.line), ann=None))
+                return
+            if pat.kind != "ptuple" or len(pat.pats) != 2:
+                self.err(pat.line, "the pattern of a `for` over `zip` / `enumerate` must be a pair")
+            if sh[0] == "enum":
+                if pat.pats[0].kind == "pvar":
+                    lets.append(Node("let", pat.line, pat=pat.pats[0], mut=False, expr=kvar(pat.line), ann=None))
+                elif pat.pats[0].kind != "pwild":
+                    self.err(pat.line, "the index pattern of `enumerate` must be a variable")
+                bind(sh[1], pat.pats[1])
+            else:
+                bind(sh[1], pat.pats[0])
+                bind(sh[2], pat.pats[1])
+        sh = self.iter_shape(s.iter)
+        bind(sh, s.pat)
+        if s.body.tail is not None:
+            self.err(s.body.tail.line, "a `for` body that ends in a value is outside the translated subset")
+        body = Node("block", s.body.line, stmts=lets + subst_vars(list(s.body.stmts), sub), tail=None)
+        rng = Node("range", s.line, lo=Node("lit", s.line, value=0, suffix="usize"), hi=length(sh), inclusive=False)
+        return [Node("for", s.line, pat=Node("pvar", s.line, name=kname), iter=rng, body=body)]
+
     def can_panic(self, c, env, ctx, st):
         """does the translation of condition `c` have a preamble (a step that can panic, or a call)?  Dry run on copies."""
         pre, _ = self.cond(c, list(env), ctx, dict(st))
@@ -1527,11 +1993,12 @@ class FnEmitter:
         _, v_vec, _ = self.expr(place, env, ctx, st)          # the vector as it is now, after `e` has been evaluated
         steps = pre_r + pre_i
         if a.op != "=":
-            if a.op[0] not in "+-*/%" or not is_int(elem):
+            if a.op[0] not in "+-*/%|&^" or not is_int(elem):
                 self.err(a.line, f"`{a.op}` on an element is outside the translated subset")
             old = self.fresh(st)
             steps.append(("bind", f"SrcVec.index {v_vec} {v_i}", old))
-            rhs = Node("bin", a.line, op=a.op[0], l=Node("rawval", a.line, val=old, ty=elem), r=Node("rawval", a.line, val=v_r, ty=elem))
+            rhs = Node("bit" if a.op[0] in "|&^" else "bin", a.line, op=a.op[0], l=Node("rawval", a.line, val=old, ty=elem),
+                       r=Node("rawval", a.line, val=v_r, ty=elem))
             p, v_r, _ = self.expr(rhs, env, ctx, st, elem)
             steps += p
         new = self.fresh(st)
@@ -1542,7 +2009,7 @@ class FnEmitter:
 
     def vec_stmt(self, e, place, v0, elem, env, ctx, st, go, ind):
         """V7 `v.resize(n, x);`, V8 `v.push(x);` with `v` a variable or a field of a variable: the place is rebound"""
-        want = [USIZE, elem] if e.name == "resize" else [elem]
+        want = [USIZE, elem] if e.name == "resize" else [elem]                              # `push`, `fill` (V9)
         if len(e.args) != len(want):
             self.err(e.line, f"`.{e.name}` takes {len(want)} argument(s)")
         pre, vals = [], []
@@ -1551,13 +2018,23 @@ class FnEmitter:
             self.same(t, w, a.line, f"argument of `.{e.name}` has the wrong type")
             pre += p
             vals.append(v)
-        term = f"(SrcVec.resize {v0} {vals[0]} {vals[1]})" if e.name == "resize" else f"(Array.push {v0} {vals[0]})"
+        term = (f"(SrcVec.resize {v0} {vals[0]} {vals[1]})" if e.name == "resize" else f"(SrcVec.fill {v0} {vals[0]})" if e.name == "fill"
+                else f"(Array.push {v0} {vals[0]})")
         self.tr.uses_vec = True
+        if e.name == "fill":
+            self.tr.uses_arr = True
         n = self.fresh(st)
         lines, env2 = self.assign(place, lambda old_, ty_: (self.lets(n, term, ind), n), env, e.line)
         return self.wrap(pre, lines + go(env2), ind)
 
     def while_loop(self, s, env, ctx, st, go, ind):
+        if s.cond.kind == "and" and getattr(s, "split", None) is None:                      # S12': `while a && b { B }`, `b` can panic / calls
+            s.split = False
+            if self.can_panic(s.cond.r, env, Ctx("loop"), st):
+                exit_ = Node("if", s.cond.r.line, cond=Parser.negate(s.cond.r), then=Node("block", s.cond.r.line, stmts=[Node("break", s.cond.r.line)], tail=None), els=None)
+                s.split = Node("while", s.line, cond=s.cond.l, body=Node("block", s.body.line, stmts=[exit_] + list(s.body.stmts), tail=s.body.tail))
+        if getattr(s, "split", None):
+            s = s.split
         names = mentioned(s.body, mentioned(s.cond, []))
         vis = {v.rust: v for v in visible(env)}
         vars_ = [vis[n] for n in names if n in vis]      # in order of first occurrence in the loop: independent of where they were declared
@@ -1599,7 +2076,7 @@ class FnEmitter:
         state_ty = "Unit" if not stypes else " × ".join(stypes)
         nfix = len(extra) + len(consts)
         sig = " → ".join(["Nat"] + ["IntTy"] * len(extra) + ["Int"] * len(consts) + ptypes + [f"Except Panic ({state_ty})"])
-        text = [f"def {name} : {sig}",
+        text = [f"def {name}{self.ty_binders()} : {sig}",
                 "  | " + ", ".join(["0"] + ["_"] * (nfix + nparams)) + " => .error .fuel",
                 "  | " + ", ".join(["fuel + 1"] + extra + consts + [f"p{i}" for i in range(nparams)]) + " =>"] + inner
         self.defs.append("\n".join(text))
@@ -1660,7 +2137,7 @@ class FnEmitter:
         types = ["Int"] * len(consts) + ptypes
         if fn.recursive:                                                                    # F1: structural recursion on the fuel
             sig = " → ".join(["Nat"] + ["IntTy"] * len(extra) + types + [f"Except Panic ({ret})"])
-            head = [f"def {fn.lean_name} : {sig}",
+            head = [f"def {fn.lean_name}{self.ty_binders()} : {sig}",
                     "  | " + ", ".join(["0"] + ["_"] * (len(extra) + len(names))) + " => .error .fuel",
                     "  | " + ", ".join(["fuel + 1"] + extra + names) + " =>"]
             return self.defs + ["\n".join(head + ["  " + x for x in lines])]
@@ -1671,7 +2148,7 @@ class FnEmitter:
             else:
                 groups.append(([n_], t_))
         binders = (f" ({' '.join(extra)} : IntTy)" if extra else "") + "".join(f" ({' '.join(ns)} : {t_})" for ns, t_ in groups)
-        head = [f"def {fn.lean_name} (fuel : Nat){binders} : Except Panic ({ret}) :="]
+        head = [f"def {fn.lean_name}{self.ty_binders()} (fuel : Nat){binders} : Except Panic ({ret}) :="]
         return self.defs + ["\n".join(head + lines)]
 
 
@@ -1698,6 +2175,9 @@ class Translator:
         if trait is None and any(f.impl.trait is None for f in cands):
             cands = [f for f in cands if f.impl.trait is None]
         if not cands:
+            for i in self.prog.impls:            # an impl whose header is outside the subset (its self type is then unknown) defines the name:
+                if i.error is not None and i.self_name is None and any(f.name == fname for f in i.fns):      # report that error
+                    raise i.error
             what = f"`impl {trait} for {sname}`" if trait else f"a function `{fname}` of `{sname}`"
             raise TranslateError(self.file, line, f"{what} is not defined in this file: outside the translated subset")
         if len(cands) > 1:
@@ -1725,7 +2205,11 @@ class Translator:
         if fn.header_error:
             raise fn.header_error
         s = self.struct(imp.self_name, imp.line)
-        if [t for _, t in imp.consts] != [t for _, t in s.consts] or imp.self_args != [n for n, _ in imp.consts]:
+        order = getattr(imp, "generic_order", None) or [n for n, _ in imp.consts]
+        s_order = getattr(s, "generic_order", None) or [n for n, _ in s.consts]
+        ic, sc = {n for n, _ in imp.consts}, {n for n, _ in s.consts}
+        if ([t for _, t in imp.consts] != [t for _, t in s.consts] or imp.self_args != order or
+                [n in ic for n in order] != [n in sc for n in s_order]):
             raise TranslateError(self.file, imp.line, f"impl of `{s.name}` must repeat the struct's const parameters in order")
 
     def request(self, fn, line, caller, in_loop=False):
@@ -1751,6 +2235,7 @@ class Translator:
                 raise TranslateError(self.file, fn.line, f"two translated functions are called `{fn.lean_name}`")
         self.parser.i = fn.body_start
         self.parser.macro_params = getattr(fn.impl, "macro_params", set())
+        self.parser.type_params = {n for n, _ in getattr(fn.impl, "tparams", [])}
         body = self.parser.parse_block()
         self.in_progress.append(fn)
         lit = {}
@@ -1875,11 +2360,17 @@ VEC_NOTE = ("`Vec<int>` / `Vec<bool>` values are `Array Int` / `Array Bool`; ind
             "fixed, hand-written functions `Rlib.SrcVec.*` of `Generated/VecPrelude.lean` (an index out of range is `Panic.index`).\n")
 
 
-def render(defs, ns, rel, pid, stem, failure=None, vec=False):
+ARR_NOTE = ("Arrays `[t; N]` and slices `[t]` are read like `Vec<t>` (the length `N` is an invariant of the Rust type, carried as a hypothesis by the\n"
+            "theorems, not stored); `contains`, `iter().product()` … are the fixed, hand-written functions of `Generated/ArrPrelude.lean`; a type\n"
+            "parameter `T` of the struct is the implicit Lean type `E0` (values of it are only moved around).\n")
+
+
+def render(defs, ns, rel, pid, stem, failure=None, vec=False, arr=False):
     text = HEADER.format(rel=rel, pid=pid, ns=ns, stem=stem)
-    if vec:                                                                                 # P4: only files that use a V rule import the prelude
-        text = text.replace("import RlibModel.Model.Common\n", "import RlibModel.Model.Common\nimport RlibModel.Generated.VecPrelude\n", 1)
-        text = text.replace("-/\nset_option", VEC_NOTE + "-/\nset_option", 1)
+    if vec or arr:                                                                          # P4: only files that use a V rule import the prelude
+        imports = "import RlibModel.Generated.VecPrelude\n" + ("import RlibModel.Generated.ArrPrelude\n" if arr else "")   # P5
+        text = text.replace("import RlibModel.Model.Common\n", "import RlibModel.Model.Common\n" + imports, 1)
+        text = text.replace("-/\nset_option", VEC_NOTE + (ARR_NOTE if arr else "") + "-/\nset_option", 1)
     if failure is not None:
         safe = failure.replace("-/", "- /").replace("/-", "/ -")
         text += f"/- TRANSLATION FAILED — no definitions; everything that refers to them stops compiling.\n   {safe} -/\n\n"
@@ -1904,7 +2395,7 @@ def run(src_path, out_path, ns, rel, pid, struct, wanted, macro=None):
                 "struct": struct, "macro": macro, "skipped_items": tr.prog.skipped}
         if macro:
             info["instances"] = ["/".join(a[1] for a in inv.args) for inv in tr.invocations]
-        text = render(defs, ns, rel, pid, stem, vec=getattr(tr, "uses_vec", False))
+        text = render(defs, ns, rel, pid, stem, vec=getattr(tr, "uses_vec", False), arr=getattr(tr, "uses_arr", False))
     except (OSError, TranslateError) as e:
         problems.append(SUBSET + f"rs2lean_typed: {e}" if isinstance(e, TranslateError) else f"rs2lean_typed: {e}")
         text = render([], ns, rel, pid, stem, failure=str(e))
